@@ -131,15 +131,9 @@ def run(ctx):
             de, vs = c14.find_visit_seq(F, ty)
             if not ctx.oblige("C01|drains|%s|anchor" % ty, vs is not None, "anchor missing: hand-written visit_seq of " + ty, cfg=cfg):
                 continue
-            lp = c14.loop_parts(vs)
-            ok = lp is not None
-            why = "the element loop is not `while let Some(x) = seq.next_element()? { .. }` (another loop guard or exit can stop it early)"
-            if ok:
-                inner = H.loop_exits([lp["body"]])
-                n_loops = len([x for x in H.walk(vs["body"]) if x.get("k") == "loop"])
-                ok = not inner and n_loops == 1
-                why = "the element loop can be left before the array is exhausted (`%s` inside the loop)" % (inner[0]["k"] if inner else "nested loop")
-            ctx.oblige("C01|drains|" + ty, ok, "%s: %s; the rest of the array would be read as the next request parameter" % (ty, why), cfg=cfg, where=vs["sp"])
+            from . import loops as L
+            problems, n_loops = L.drains(F, vs)
+            ctx.oblige("C01|drains|" + ty, not problems and n_loops == 1, "%s: %s; the rest of the array would be read as the next request parameter" % (ty, "; ".join(problems[:2]) or "%d loops" % n_loops), cfg=cfg, where=vs["sp"])
         # the documented lossy members are lossy *only* as documented (a name that fits is kept whole, an icon of at most
         # 128 bytes is kept verbatim): the C13 rules for the lossy decoders are a necessary condition of C01 as well
         from . import c13
